@@ -22,13 +22,14 @@ func defsC17() []*ph.Def {
 				{Name: "level", Kind: ph.Int, Aliases: []string{"l"}, SuggestFn: true},
 				{Name: "inc", Kind: ph.Incr},
 				{Name: "define", Kind: ph.Map, Min: 1, Max: 2, Suggested: []string{"os=", "arch=", "opt=1"}},
+				{Name: "profile", Kind: ph.Str, Aliases: []string{"env"}, Suggested: []string{"dev", "prod"}}, // an alias that is no beginning of the name
 			},
 			ArgCompl: []string{"alpha", "build-all", "zeta", "env=dev", "env=prod", "/etc/hosts"}, // suggestions may contain `=` or be absolute paths
 			Cmds: []*ph.CmdDef{
 				{Name: "build", Desc: "b", Opts: []ph.OptDef{{Name: "target", Kind: ph.Str, Suggested: []string{"linux", "darwin"}}, {Name: "verify", Kind: ph.Bool}},
 					Cmds: []*ph.CmdDef{{Name: "fast", Opts: []ph.OptDef{{Name: "jobs", Kind: ph.Int}}}, {Name: "full"}}, ArgCompl: []string{"file1", "file2"}},
 				{Name: "bundle", ArgFn: true},
-				{Name: "wrap", Unset: true, Unknown: 3, Opts: []ph.OptDef{{Name: "wopt", Kind: ph.Bool}}},
+				{Name: "wrap", Unset: true, Unknown: 3, Opts: []ph.OptDef{{Name: "wopt", Kind: ph.Bool}}, Cmds: []*ph.CmdDef{{Name: "shell", Opts: []ph.OptDef{{Name: "container", Kind: ph.Str}}}}}, // below the wrapper only what the wrapper has is inherited
 				{Name: "log", Cmds: []*ph.CmdDef{{Name: "grep"}, {Name: "tail"}}},
 				{Name: "logs"}, {Name: "login", ArgCompl: []string{"user=root"}}, // a command name that is the beginning of its siblings' names
 			},
@@ -489,7 +490,7 @@ func c17LastWords(def *ph.Def, lv *c17Level) []string {
 func init() {
 	register(&Check{
 		ID:        "C17",
-		QuickSecs: 300, ThoroSecs: 1500,
+		QuickSecs: 900, ThoroSecs: 1500,
 		Rule: "input-space exploration of the completion path, in-process (exit function and completion writer replaced through an overlay-only file): 6 trees (aliases, suggested and valid values, value completion function, static and dynamic argument completions, UnsetOptions wrapper, nested commands, with and without help command, lonesome dash, require-order on a command, all three modes) x every sequence of earlier words of length <= Le over long options with values, command names and a positional " +
 			"x last word in {every prefix of every option name/alias and command/suggestion of the level reached, `-`, `--`, empty, `--k=`, `--k=<prefix>`, non-matching} x bash/zsh x three argument conventions of Parse, and (bash) the same line with its words separated by two blanks or by a tab; offered option names / commands / values compared as sets with the set computed from the definition and the reference model's level, " +
 			"sortedness, parser acceptance of every offered option and command, no CommandFn, exit path (also when the stream the candidates are written to fails); three cases with a dynamic completion function that takes 1.5 s to answer; distinct_nontrivial = distinct in-domain (definition, COMP_LINE, target, convention) cases",
@@ -501,7 +502,7 @@ func init() {
 				le = 3
 			}
 			defs := defsC17()
-			earlyAlpha := []string{"--verbose", "--format=json", "--format", "json", "build", "fast", "bundle", "wrap", "log", "help", "pos", "--level=3", "a", "ab", "--a"}
+			earlyAlpha := []string{"--verbose", "--format=json", "--format", "json", "build", "fast", "bundle", "wrap", "log", "help", "pos", "--level=3", "a", "ab", "--a", "shell"}
 			res.Bounds = map[string]any{"Le": le, "definitions": len(defs), "earlier_word_alphabet": earlyAlpha}
 			units := len(defs) * (len(earlyAlpha) + 1)
 			for {
